@@ -172,19 +172,14 @@ Section GoodStep.
   Proof.
     intros HS Hev. pose proof HS as [Hn Hc]. destruct ev; cbn [step].
     - (* EvHtlc *)
-      destruct (entry_ (pl s)) as [e|] eqn:He.
-      + destruct (find_select 0 (lcs (pl s))) as [[[i d] li]|] eqn:Hf; [|constructor; assumption].
-        destruct (find_select_spec _ _ _ _ _ Hf) as (x & Hx & _). rewrite Nat.sub_0_r in Hx.
-        match goal with |- InvS good (fst (let '(s2, o2) := apply_adv ?s1 ?i ?aa in _)) => assert (HA : InvS good (fst (apply_adv s1 i aa))) end.
-        { apply (InvS_apply_adv _ i _ x); [constructor; assumption|exact Hx|apply select_poll_news_good]. }
-        match type of HA with InvS good (fst ?t) => destruct t as [s2 o2] end. exact HA.
-      + assert (HS1 : forall k cl, nth_error (calls s ++ mk_calls [QListState]) k = Some cl -> call_good good cl)
-          by (apply calls_good_app; [exact Hc|constructor; [exact I|constructor]]).
-        destruct (find_select 0 _) as [[[i d] li]|] eqn:Hf; [|constructor; assumption].
-        destruct (find_select_spec _ _ _ _ _ Hf) as (x & Hx & _). rewrite Nat.sub_0_r in Hx.
-        match goal with |- InvS good (fst (let '(s2, o2) := apply_adv ?s1 ?i ?aa in _)) => assert (HA : InvS good (fst (apply_adv s1 i aa))) end.
-        { apply (InvS_apply_adv _ i _ x); [constructor; assumption|exact Hx|apply select_poll_news_good]. }
-        match type of HA with InvS good (fst ?t) => destruct t as [s2 o2] end. exact HA.
+      destruct (entry_ (pl s)) as [e|] eqn:He; [constructor; assumption|].
+      assert (HS1 : forall k cl, nth_error (calls s ++ mk_calls [QListState]) k = Some cl -> call_good good cl)
+        by (apply calls_good_app; [exact Hc|constructor; [exact I|constructor]]).
+      constructor; assumption.
+    - (* EvPoll *)
+      destruct (find_select 0 (lcs (pl s))) as [[[i d] li]|] eqn:Hf; [|exact HS].
+      destruct (find_select_spec _ _ _ _ _ Hf) as (x & Hx & _). rewrite Nat.sub_0_r in Hx.
+      apply (InvS_apply_adv _ i _ x); [exact HS|exact Hx|apply select_poll_news_good].
     - (* EvProcess *)
       destruct (nth_error (calls s) cid) as [cl|] eqn:Hcl; [|exact HS]. destruct (c_st cl) eqn:Hst; try exact HS.
       pose proof (node_exec_good good (nd s) (c_rpc cl) f Hn (proj1 (Hc _ _ Hcl))) as (G1 & G2).
@@ -256,23 +251,19 @@ Proof.
   intros HU HE HF. destruct ev; cbn [step]; try exact HF.
   - (* EvHtlc *)
     destruct (entry_ (pl s)) as [e|] eqn:He.
-    + pose proof (FailQ_handle c e h (HF e He)) as HF1.
-      destruct (find_select 0 (lcs (pl s))) as [[[i d] li]|] eqn:Hf; [|intros e' He'; cbn in He'; inversion He'; subst; exact HF1].
-      destruct (find_select_spec _ _ _ _ _ Hf) as (x & Hx & Hp & Hli & _). rewrite Nat.sub_0_r in Hx. subst li.
-      assert (Ax : attached (l_pc x) = true) by (rewrite Hp; reflexivity).
-      destruct (e_handle_ident c e h) as (Hb & Hd & Hi & _).
-      assert (Hae : adv_entry_ok c (l_info x) (Some (e_handle c e h)) (select_poll c (l_info x) (length (calls s)) (height s) (now s) d (Some (e_handle c e h)) true (next_att (pl s)))).
-      { apply select_poll_entry_ok. intros en Hen. inversion Hen; subst. split; [apply EInv_handle; exact (ie_entry c s HE e He)|].
-        rewrite (proj1 (ie_lc c s HE e i x He Hx Ax)). unfold info_of. rewrite Hb, Hd, Hi. reflexivity. }
-      match goal with |- InvF (fst (let '(s2, o2) := apply_adv ?s1 ?i ?aa in _)) => assert (HA : InvF (fst (apply_adv s1 i aa))) end.
-      { intros e' He'. match type of He' with context [apply_adv ?s1 ?i ?aa] => destruct (apply_adv_lcs s1 i aa x Hx) as (_ & Hen & _) end.
-        rewrite Hen in He'. destruct Hae as (Hrel & _). rewrite He' in Hrel. exact (FailQ_rel _ _ Hrel HF1). }
-      match type of HA with InvF (fst ?t) => destruct t as [s2 o2] end. exact HA.
-    + pose proof (FailQ_handle c (new_entry h) h (FailQ_new h)) as HF1.
-      unfold InvU in HU. rewrite He in HU.
-      assert (Hfs : forall l n, n_att l = 0%nat -> find_select n (l ++ [{| l_pc := PFetch (length (calls s)); l_info := {| li_blob := blob h; li_deliver := deliver h; li_inv_amount := inv_amount h |} |}]) = None).
-      { induction l as [|z r IH]; intros n Hn; cbn in *; [reflexivity|]. destruct (l_pc z); cbn in Hn; try lia; apply IH; lia. }
-      rewrite (Hfs _ 0%nat HU). intros e' He'. cbn in He'. inversion He'; subst. exact HF1.
+    + pose proof (FailQ_handle c e h (HF e He)) as HF1. intros e' He'; cbn in He'; inversion He'; subst; exact HF1.
+    + pose proof (FailQ_handle c (new_entry h) h (FailQ_new h)) as HF1. intros e' He'. cbn in He'. inversion He'; subst. exact HF1.
+  - (* EvPoll *)
+    destruct (find_select 0 (lcs (pl s))) as [[[i d] li]|] eqn:Hf; [|exact HF].
+    destruct (find_select_spec _ _ _ _ _ Hf) as (x & Hx & Hp & Hli & _). rewrite Nat.sub_0_r in Hx. subst li.
+    assert (Ax : attached (l_pc x) = true) by (rewrite Hp; reflexivity).
+    assert (Hae : adv_entry_ok c (l_info x) (entry_ (pl s)) (select_poll c (l_info x) (length (calls s)) (height s) (now s) d (entry_ (pl s)) sel (next_att (pl s)))).
+    { apply select_poll_entry_ok. intros en Hen. split; [exact (ie_entry c s HE en Hen)|exact (proj1 (ie_lc c s HE en i x Hen Hx Ax))]. }
+    intros e' He'. destruct (apply_adv_lcs s i (select_poll c (l_info x) (length (calls s)) (height s) (now s) d (entry_ (pl s)) sel (next_att (pl s))) x Hx) as (_ & Hen & _).
+    rewrite Hen in He'. destruct Hae as (Hrel & _). rewrite He' in Hrel.
+    destruct (entry_ (pl s)) as [e|] eqn:Ee.
+    + exact (FailQ_rel _ _ Hrel (HF e Ee)).
+    + destruct Hrel as [H|[H|(en & ? & ? & H & _)]]; discriminate.
   - destruct (nth_error (calls s) cid) as [cl|]; [|exact HF]. destruct (c_st cl); try exact HF.
     destruct (node_exec (nd s) (c_rpc cl) f). exact HF.
   - (* EvDeliver *)
@@ -354,18 +345,12 @@ Section C01.
     InvS good s -> InvF s -> ev_good good ev -> In (OResp h (Resolve p)) (snd (step c s ev)) -> good p.
   Proof.
     intros HS HF Hev Hin. destruct ev; cbn [step] in Hin; try (destruct Hin; fail).
-    - (* EvHtlc: only failures can come out of the select! *)
-      exfalso. destruct (entry_ (pl s)) as [e|] eqn:He.
-      + destruct (find_select 0 (lcs (pl s))) as [[[i d] li]|] eqn:Hf; [|destruct Hin].
-        match type of Hin with context [apply_adv ?s1 ?i ?aa] => pose proof (apply_adv_resp_in s1 i aa h (Resolve p)) as HR; destruct (apply_adv s1 i aa) as [s2 o2] end.
-        cbn [fst snd app] in *. specialize (HR Hin).
-        assert (HQ : forall en, Some (e_handle c e h0) = Some en -> FailQ en) by (intros en Hen; injection Hen as <-; exact (FailQ_handle c e h0 (HF e He))).
-        destruct (select_poll_resp _ _ _ _ _ _ _ _ _ _ _ HQ HR) as (m & Hm). discriminate.
-      + destruct (find_select 0 _) as [[[i d] li]|] eqn:Hf; [|destruct Hin as [Hin|[]]; discriminate].
-        match type of Hin with context [apply_adv ?s1 ?i ?aa] => pose proof (apply_adv_resp_in s1 i aa h (Resolve p)) as HR; destruct (apply_adv s1 i aa) as [s2 o2] end.
-        cbn [fst snd app] in *. destruct Hin as [Hin|Hin]; [discriminate|]. specialize (HR Hin).
-        assert (HQ : forall en, Some (e_handle c (new_entry h0) h0) = Some en -> FailQ en) by (intros en Hen; injection Hen as <-; exact (FailQ_handle c (new_entry h0) h0 (FailQ_new h0))).
-        destruct (select_poll_resp _ _ _ _ _ _ _ _ _ _ _ HQ HR) as (m & Hm). discriminate.
+    - (* EvHtlc: answers nobody *)
+      exfalso. destruct (entry_ (pl s)) as [e|] eqn:He; [destruct Hin|destruct Hin as [Hin|[]]; discriminate].
+    - (* EvPoll: only failures can come out of the select! *)
+      exfalso. destruct (find_select 0 (lcs (pl s))) as [[[i d] li]|] eqn:Hf; [|destruct Hin].
+      apply apply_adv_resp_in in Hin.
+      destruct (select_poll_resp _ _ _ _ _ _ _ _ _ _ _ HF Hin) as (m & Hm). discriminate.
     - destruct (nth_error (calls s) cid) as [cl|]; [|destruct Hin]. destruct (c_st cl); try (destruct Hin; fail).
       destruct (node_exec (nd s) (c_rpc cl) f). destruct Hin.
     - (* EvDeliver *)
